@@ -266,6 +266,7 @@ LD = np.longdouble
 PI_L = LD("3.14159265358979323846264338327950288")
 SLACK, VSLACK, SINSLACK = LD(1e-9), LD(15) / LD(10) ** 23, LD(4) / LD(10) ** 15
 SUSPECT_MAX = 3
+GEO_PAR = 8
 
 
 def _d2r(x):
@@ -389,7 +390,19 @@ def geometry(ctx, replay_case=None):
         (suspect if nsus[key] <= (2 if key[2] != "*" else SUSPECT_MAX) or replay_case is not None else skipped).append(it)
     ctx.count("prescreen:predicted-to-hold", len(good))
     ctx.count("prescreen:predicted-to-fail", len(suspect) + len(skipped))
-    res = core.coq_lemmas(ctx.work + "/geo", PRE_R, [it[4] for it in good], shard=ctx.n(24, 30), tag="geo") if good else []
+    # at most GEO_PAR coqc processes at a time (each holds ~0.6 GB with Interval loaded; core.coq_lemmas would start 16)
+    res, sh = [], ctx.n(24, 30)
+    for b0 in range(0, len(good), sh * GEO_PAR):
+        res += core.coq_lemmas(ctx.work + "/geo%d" % (b0 // (sh * GEO_PAR)), PRE_R,
+                               [it[4] for it in good[b0:b0 + sh * GEO_PAR]], shard=sh, tag="geo")
+    # a coqc that died without a Coq error message (killed by the OOM killer / timeout on an overloaded machine)
+    # is not a verdict: compile those lemmas once more, four at a time
+    dead = [k for k, (ok, msg) in enumerate(res) if not ok and "Error" not in msg]
+    ctx.count("certificates recompiled after a coqc crash", len(dead))
+    for b0 in range(0, len(dead), 4):
+        ks = dead[b0:b0 + 4]
+        for k, r in zip(ks, core.coq_lemmas(ctx.work + "/again%d" % b0, PRE_R, [good[k][4] for k in ks], shard=1, tag="again")):
+            res[k] = r
     res += core.coq_lemmas(ctx.work + "/sus", PRE_R, [it[4] for it in suspect], shard=1, tag="sus") if suspect else []
     ctx.checker_cmds.append("coqc <generated per-case lemmas: ProofsGeo introduction rules + interval>")
     failed_prop, failed_model = [], []
